@@ -18,6 +18,9 @@ type AsmConfig struct {
 	Length    int64
 	Processes int64
 	Distance  int64
+	// NoConstCounts keeps the predefined constants out of FOR counts: for texts that are
+	// assembled under configurations other than the one they were generated for
+	NoConstCounts bool `json:",omitempty"`
 }
 
 func (c AsmConfig) RC() rc.Config {
